@@ -188,13 +188,16 @@ def _grad(op, a, b=None):
         return [1 / a[0]] + [-a[i] / a[0] ** 2 for i in (1, 2, 3)]
     if op == "copy":
         return list(a)
+    if op in ("floor", "ceil"):
+        # piecewise constant: zero partial derivatives
+        return [sp.floor(a[0]) if op == "floor" else sp.ceiling(a[0]), ZERO, ZERO, ZERO]
     return None
 
 
 def _lanewise(op, a, b, n):
     f = {"add": lambda p, q: p + q, "sub": lambda p, q: p - q, "mul": lambda p, q: p * q, "div": lambda p, q: p / q,
          "neg": lambda p, q: -p, "abs": lambda p, q: sp.Abs(p), "sqrt": lambda p, q: sp.sqrt(p), "square": lambda p, q: p * p,
-         "recip": lambda p, q: 1 / p, "copy": lambda p, q: p, "min": lambda p, q: sp.Min(p, q), "max": lambda p, q: sp.Max(p, q)}.get(op)
+         "recip": lambda p, q: 1 / p, "copy": lambda p, q: p, "floor": lambda p, q: sp.floor(p), "ceil": lambda p, q: sp.ceiling(p), "min": lambda p, q: sp.Min(p, q), "max": lambda p, q: sp.Max(p, q)}.get(op)
     if f is None:
         return None
     return [f(a[i], b[i] if b is not None else None) for i in range(n)]
@@ -210,6 +213,9 @@ def _interval(op, a, b=None):
         return [-a[1], -a[0]]
     if op == "copy":
         return [a[0], a[1]]
+    if op in ("floor", "ceil"):
+        f_ = sp.floor if op == "floor" else sp.ceiling
+        return [f_(a[0]), f_(a[1])]
     if op == "mul":
         c = [a[i] * b[j] for i in (0, 1) for j in (0, 1)]
         return [sp.Min(*c), sp.Max(*c)]
@@ -225,7 +231,7 @@ def expected(kind, op, a, b):
     return _lanewise(op, a, b, n)
 
 
-OPS_UNARY = ("neg", "abs", "sqrt", "square", "recip", "copy")
+OPS_UNARY = ("neg", "abs", "sqrt", "square", "recip", "copy", "floor", "ceil")
 OPS_BINARY = ("add", "sub", "mul", "div", "min", "max")
 
 
